@@ -138,7 +138,12 @@ def run_case(case, st=None):
     for i, n in enumerate(["utime", "stime", "cutime", "cstime", "processor", "blkio_ticks"]):
         p.stat[n] = 11 + 7 * i
     p.uids, p.gids, p.vctx, p.nvctx = (1000, 1001, 1002, 1003), (2000, 2001, 2002, 2003), 31, 37
+    p.status_extra = {}
     k = case[0]
+    if k == "status-tail":
+        # the status record of another kernel release: lines AFTER the context-switch counters
+        p.status_extra = {"x86tail": True}
+        p.vctx, p.nvctx = case[1], case[2]
     if k == "name":
         p.comm = case[1]
         if case[2] is not None:
@@ -205,6 +210,34 @@ def run_case(case, st=None):
             if got[m] != e:
                 bad.append(("%s:wrong-under-filesystem-encoding-%s" % (m, enc_), "%s: got %r, kernel facts %r (case %r)" % (m, got[m], e, case)))
         return bad, "ok" if not bad else "mismatch"
+    if k == "thread-exit":
+        # one thread of a live process exits just before access k of ONE threads() call (between the listing, the open and the
+        # read of its own stat file): the answer is the list with or without that thread, exact for all the others
+        kk, victim = case[1], case[2]
+        p.threads = [Thread(p.pid + i, c, "S", 5 + 10 * i, 6 + 10 * i) for i, c in enumerate([b"main", b"a b", b"x) y", b"w"])]
+        full = sorted([t.tid, t.utime / CLK_TCK, t.stime / CLK_TCK] for t in p.threads)
+        vt = p.threads[victim].tid
+        o = outcome(psutil.Process, p.pid)
+        if o[0] != "ok":
+            return [("ctor", "Process() failed: %r" % (o,))], "ctor-fail"
+        cnt = [0]
+
+        def hook(world, kind, subj, pid_):
+            if cnt[0] == kk:
+                p.threads = [t for t in p.threads if t.tid != vt]
+            cnt[0] += 1
+        w.hook = hook
+        try:
+            got = outcome(lambda: sorted([t.id, t.user_time, t.system_time] for t in o[1].threads()))
+        finally:
+            w.hook = None
+        p.threads = None
+        rest = [x for x in full if x[0] != vt]
+        if got[0] != "ok":
+            return [("threads:raised-when-a-thread-exits-during-the-call:%s" % got[1], "thread %d exits before access %d: %r" % (vt, kk, got))], "mismatch"
+        if got[1] != full and got[1] != rest:
+            return [("threads:wrong-when-a-thread-exits-during-the-call", "thread %d exits before access %d: got %r, expected %r or %r" % (vt, kk, got[1], full, rest))], "mismatch"
+        return [], "ok"
     if k == "seq":
         # ONE Process object while the kernel's record of the (same) process changes between queries: every answer follows
         # the record as it is now (create_time: same process, same start)
@@ -341,6 +374,11 @@ def build_cases(thorough):
             if f in ("uid", "gid") and v > 2 ** 32 - 1:
                 continue
             cases.append(("status", f, v))
+    for kk in range(0, 14):
+        for victim in (1, 3):
+            cases.append(("thread-exit", kk, victim))
+    for v1, v2 in ((31, 37), (0, 0), (2 ** 64 - 1, 2 ** 64 - 1), (5, 2 ** 63)):
+        cases.append(("status-tail", v1, v2))
     return cases
 
 
